@@ -170,12 +170,12 @@ theorem literalIntWith_closed {f : UInt8 → Option Nat} {base : Nat} (hr : IsRa
     split <;> (rename_i hk; simp [hk])
   · simp only [hlt, if_false]
 
-/-- **int_value_exact** (full strength since fix dc17362): an accepted integer literal consumed the maximal run
-of digits and its suffix, the run's positional value `v` fits the token's payload type, and the token denotes
-exactly `v`. -/
+/-- **int_value_exact** (full strength since fixes dc17362 and 93e9a96): an accepted integer literal consumed the
+maximal run of digits and its suffix, the token denotes exactly the run's positional value `v`, and `v` fits the
+type the suffix names (`u` ⇒ `< 2^32`, `l` ⇒ `< 2^63`, none / `ul` ⇒ `< 2^64`). -/
 theorem int_value_exact {f : UInt8 → Option Nat} {base : Nat} (hr : IsRadix f base) {inp rest : Bytes}
     {tok : Token} (h : literalIntWith f base inp = .ok (rest, tok)) :
-    tok.intValue? = some (Dec2Bin.ofDigits base (digitRun f inp) : Int) ∧
+    tok.intValue? = some (Dec2Bin.ofDigits base (digitRun f inp) : Int) ∧ tok.intInRange ∧
     Dec2Bin.ofDigits base (digitRun f inp) < 2 ^ 64 ∧
     mkIntToken? (Dec2Bin.ofDigits base (digitRun f inp)) (opt (intType (afterRun f inp)) (afterRun f inp)).2
       = some tok ∧
@@ -195,18 +195,19 @@ theorem int_value_exact {f : UInt8 → Option Nat} {base : Nat} (hr : IsRadix f 
           simp at h
           obtain ⟨h1, h2⟩ := h
           subst h1 h2
-          exact ⟨mkIntToken?_value hk, hlt, hk, rfl⟩
+          exact ⟨mkIntToken?_value hk, mkIntToken?_inRange hlt hk, hlt, hk, rfl⟩
         · cases h
       · simp only [hlt, if_false] at h
         cases h
 
-/-- **int_overflow_rejected**: a literal that does not fit — the digit run is `≥ 2^64`, or it is `≥ 2^63` and
-carries the signed suffix `l`/`L` — is never accepted: `IntegerLiteralTooLarge` at its first digit. -/
+/-- **int_overflow_rejected**: a literal that does not fit — the digit run is `≥ 2^64`, or `≥ 2^32` with suffix
+`u`, or `≥ 2^63` with the signed suffix `l` (`SuffixOverflow`) — is never accepted: `IntegerLiteralTooLarge` at its
+first digit. -/
 theorem int_overflow_rejected {f : UInt8 → Option Nat} {base : Nat} (hr : IsRadix f base) (b : UInt8) (r : Bytes)
     (d : Nat) (hd : f b = some d)
     (hbig : 2 ^ 64 ≤ Dec2Bin.ofDigits base (digitRun f (b :: r)) ∨
-      ((opt (intType (afterRun f (b :: r))) (afterRun f (b :: r))).2 = some .Signed64 ∧
-        2 ^ 63 ≤ Dec2Bin.ofDigits base (digitRun f (b :: r)))) :
+      SuffixOverflow (Dec2Bin.ofDigits base (digitRun f (b :: r)))
+        (opt (intType (afterRun f (b :: r))) (afterRun f (b :: r))).2) :
     literalIntWith f base (b :: r) = .error (.lex (.rest (b :: r)) .IntegerLiteralTooLarge) := by
   rw [literalIntWith_closed hr b r d hd]
   by_cases hlt : Dec2Bin.ofDigits base (digitRun f (b :: r)) < 2 ^ 64
@@ -222,8 +223,8 @@ theorem int_rejected_only_when_too_large {f : UInt8 → Option Nat} {base : Nat}
     {pos : ErrAt} (h : literalIntWith f base inp = .error (.lex pos .IntegerLiteralTooLarge)) :
     pos = .rest inp ∧
     (2 ^ 64 ≤ Dec2Bin.ofDigits base (digitRun f inp) ∨
-      ((opt (intType (afterRun f inp)) (afterRun f inp)).2 = some .Signed64 ∧
-        2 ^ 63 ≤ Dec2Bin.ofDigits base (digitRun f inp))) := by
+      SuffixOverflow (Dec2Bin.ofDigits base (digitRun f inp))
+        (opt (intType (afterRun f inp)) (afterRun f inp)).2) := by
   cases inp with
   | nil => simp [literalIntWith, digitsWith, digitWith, endOfStream] at h
   | cons b r =>
@@ -269,6 +270,11 @@ example : (match literalInt [57, 50, 50, 51, 51, 55, 50, 48, 51, 54, 56, 53, 52,
 /-- non-vacuity: `0x7fFFu;` is accepted with value 32767, `18446744073709551616` is rejected -/
 example : (match literalInt [48, 120, 55, 102, 70, 70, 117, 59] with
      | .ok (rest, tok) => (rest, tok.intValue?) | .error _ => ([], none)) = ([59], some 32767) := by decide
+/-- regression witness for 93e9a96: `4294967296u` is rejected, `4294967295u` accepted -/
+example : (match literalInt [52, 50, 57, 52, 57, 54, 55, 50, 57, 54, 117] with
+     | .error (.lex (.rest r) k) => some (r.length, k) | _ => none) = some (11, .IntegerLiteralTooLarge) := by decide
+example : (match literalInt [52, 50, 57, 52, 57, 54, 55, 50, 57, 53, 117] with
+     | .ok (rest, tok) => (rest.length, tok.intValue?) | .error _ => (1, none)) = (0, some 4294967295) := by decide
 example : (match literalInt [49, 56, 52, 52, 54, 55, 52, 52, 48, 55, 51, 55, 48, 57, 53, 53, 49, 54, 49, 54] with
      | .error (.lex _ r) => some r | _ => none) = some .IntegerLiteralTooLarge := by decide
 
